@@ -133,7 +133,7 @@ Proof.
   rewrite filter_nil_forallb. apply forallb_ext_In. intros a Ha.
   rewrite (lookup_map_In _ _ _ Ha).
   destruct (unaligned E).
-  - rewrite <- map_rev. rewrite (lookup_map_In _ (rev (live s)) a) by (apply -> in_rev; exact Ha). reflexivity.
+  - rewrite <- map_rev. rewrite (lookup_map_In _ (rev (step_agents E s)) a) by (apply -> in_rev; exact Ha). reflexivity.
   - rewrite (lookup_map_In _ _ _ Ha). reflexivity.
 Qed.
 
@@ -167,13 +167,13 @@ Proof. apply (g_wrapper_same_condition raw_step env_reset live all_done_keys_spe
 (* when the last live agent finishes, the worker resets its environment and the observation it
    returns for every agent is the FIRST observation of the new episode *)
 Theorem autoreset_first_obs_lemma E agents s acts a :
-  no_agent_left (fst (raw_step E s acts)) = true -> In a agents -> a < nag E ->
+  no_agent_left (fst (raw_step E s acts)) = true -> In a agents -> a < nag E -> joins_late E a = false ->
   let r := worker_step E agents s acts in
   fst r = fst (env_reset E (fst (raw_step E s acts)) no_rarg) /\
   ord (fst r) = S (ord s) /\ tm (fst r) = 0 /\
   get a (tobs (snd r)) [] = observe E (fst r) a 0%Z.
 Proof.
-  intros Hd Ha Hn. cbn zeta. rewrite worker_refines_single_lemma. unfold single_step, g_single_step.
+  intros Hd Ha Hn Hj. cbn zeta. rewrite worker_refines_single_lemma. unfold single_step, g_single_step.
   fold no_agent_left.
   destruct (raw_step E s acts) as [s1 tr] eqn:Er. cbn [fst snd] in *. rewrite Hd.
   assert (Ho : ord s1 = ord s) by (unfold raw_step in Er; injection Er as <- _; reflexivity).
@@ -181,7 +181,8 @@ Proof.
   split; [reflexivity|]. split; [congruence|]. split; [reflexivity|].
   unfold get. rewrite (fill_lookup agents _ _ a Ha).
   match goal with |- context[map (fun b => (b, observe E ?st b 0%Z)) ?L] =>
-    rewrite (lookup_map_In (fun b => observe E st b 0%Z) L a) by (apply in_seq; lia) end.
+    rewrite (lookup_map_In (fun b => observe E st b 0%Z) L a)
+      by (apply filter_In; split; [apply in_seq; lia | rewrite Hj; reflexivity]) end.
   reflexivity.
 Qed.
 
